@@ -185,6 +185,47 @@ def getDeformation (Lx Ly Lz : Nat) (name : String) (axis : Option String) (loc 
     | some a => some (if a == ax then PauliMap.swapXZ else PauliMap.id)
   else none
 
+/-! ### the independent family of the rank clause (`Properties/C01RotatedToric3DCode.rank_family`) -/
+
+/-- `range(2, 2*L + 1, 4)`: the even coordinates `≡ 2 (mod 4)` of the period -/
+def pyRange4 (L : Nat) : List Int :=
+  (List.range ((L + 1) / 2)).map fun i => ((4 * i + 2 : Nat) : Int)
+
+/-- every vertex and horizontal face of the bottom layer `z = 1` except the vertex `(2, 4, 1)` and,
+    when `Lx`, `Ly` are both even, the face `(2, 2, 1)` -/
+def famLayer1 (Lx Ly : Nat) : List Coord :=
+  if Lx % 2 == 0 && Ly % 2 == 0 then
+    ((grid3 (pyRange2 2 (2*Lx+1)) (pyRange2 2 (2*Ly+1)) [1] (fun _ _ _ => true)).erase
+      [2, 4, 1]).erase [2, 2, 1]
+  else (grid3 (pyRange2 2 (2*Lx+1)) (pyRange2 2 (2*Ly+1)) [1] (fun _ _ _ => true)).erase [2, 4, 1]
+
+/-- every vertex of the layers `z ≥ 3` -/
+def famVerticesUp (Lx Ly Lz : Nat) : List Coord :=
+  grid3 (pyRange2 2 (2*Lx+1)) (pyRange2 2 (2*Ly+1)) (pyRange2 3 (2*Lz))
+    (fun x y _ => (x + y) % 4 == 2)
+
+/-- the horizontal faces of the layers `z ≥ 3` next to the dropped column of vertical faces
+    (`x ∈ {2, 2Lx}` for an odd `Lx`, `y ∈ {2, 2Ly}` for an odd `Ly`; none for even × even) -/
+def famFacesUp (Lx Ly Lz : Nat) : List Coord :=
+  if Lx % 2 == 1 then
+    grid3 [2, 2 * (Lx : Int)] (pyRange4 Ly) (pyRange2 3 (2*Lz)) (fun _ _ _ => true)
+  else if Ly % 2 == 1 then
+    grid3 (pyRange4 Lx) [2, 2 * (Ly : Int)] (pyRange2 3 (2*Lz)) (fun _ _ _ => true)
+  else []
+
+/-- every vertical face (the columns `x = 1` for an odd `Lx`, `y = 1` for an odd `Ly` carry none) -/
+def famVFaces (Lx Ly Lz : Nat) : List Coord :=
+  if Lx % 2 == 1 then
+    grid3 (pyRange2 3 (2*Lx)) (pyRange2 1 (2*Ly)) (pyRange2 2 (2*Lz)) (fun _ _ _ => true)
+  else if Ly % 2 == 1 then
+    grid3 (pyRange2 1 (2*Lx)) (pyRange2 3 (2*Ly)) (pyRange2 2 (2*Lz)) (fun _ _ _ => true)
+  else grid3 (pyRange2 1 (2*Lx)) (pyRange2 1 (2*Ly)) (pyRange2 2 (2*Lz)) (fun _ _ _ => true)
+
+/-- An explicit family of `n − k` stabilizer locations whose operators are GF(2)-independent, for
+    every size of the supported family (`Lx, Ly ≥ 2` not both odd, `Lz ≥ 1`). -/
+def rankFamily (Lx Ly Lz : Nat) : List Coord :=
+  famLayer1 Lx Ly ++ famVerticesUp Lx Ly Lz ++ famFacesUp Lx Ly Lz ++ famVFaces Lx Ly Lz
+
 def lattice (Lx Ly Lz : Nat) : Lattice :=
   { qubits := qubits Lx Ly Lz, stabs := stabs Lx Ly Lz, getStab := getStab Lx Ly Lz,
     logX := logX Lx Ly Lz, logZ := logZ Lx Ly Lz }
